@@ -315,6 +315,11 @@ where
   G: FnOnce(&Ctx),
   E: Fn(&Ctx, &C) + Sync,
 {
+  // anyhow captures a backtrace for every error value when RUST_BACKTRACE is set (behind a process-wide lock, which
+  // serialises the worker threads); the checks create millions of error values.
+  if std::env::var_os("RUST_LIB_BACKTRACE").is_none() {
+    std::env::set_var("RUST_LIB_BACKTRACE", "0");
+  }
   crate::guard::install_hook();
   crate::fx::install_clock();
   let (tier, seed, replay) = parse_args();
